@@ -497,7 +497,7 @@ def s0_compositions(ctx) -> None:
                       "(products undercount) or parts fall below their minimum")
     # (d) recursion on the rest, prefixed by the first part
     rec = [c for c in walk_local(loop) if isinstance(c, ast.Call) and norm(c.func) == "compositions"]
-    okrec = len(rec) == 1 and [norm(a) for a in rec[0].args] == [f"n - {i}", "k - 1", "min_sizes[1:]", "max_sizes[1:]"]
+    okrec = len(rec) == 1 and [norm(D.expanded(f, a)) for a in rec[0].args] == [f"n - {i}", "k - 1", "min_sizes[1:]", "max_sizes[1:]"]
     pref = PT.find_all(loop, "map((_M_i,).__add__, _A_)", {"_M_i": i}) or PT.find_all(loop, "(_M_i,) + _M_rest", {"_M_i": i})
     if okrec and pref:
         ctx.ok("S0", "the rest is composed recursively from n - first part, with the remaining minima / maxima, and prefixed by the first part")
